@@ -1,6 +1,9 @@
 """C13 - reads and writes report per-characteristic outcomes faithfully (IP read/write, CoAP read/write mapping).
 Real code: ip/pairing.py format_characteristic_list + IpPairing.put_characteristics, statuscodes.to_status_code,
 coap/connection.py _read/_write_characteristics_exit, coap/pairing.py CoAPPairing.put_characteristics."""
+import asyncio
+
+import aiohomekit.controller.ble.pairing as real_blep
 import aiohomekit.controller.coap.connection as real_cconn
 import aiohomekit.controller.coap.pairing as real_cpair
 import aiohomekit.controller.ip.pairing as real_ip
@@ -12,8 +15,9 @@ from symx.core import SymInt
 from . import common
 
 PROP = "C13"
-SC, IP, CCONN, CPAIR = ("aiohomekit.protocol.statuscodes", "aiohomekit.controller.ip.pairing",
-                        "aiohomekit.controller.coap.connection", "aiohomekit.controller.coap.pairing")
+SC, IP, CCONN, CPAIR, BLEP = ("aiohomekit.protocol.statuscodes", "aiohomekit.controller.ip.pairing",
+                              "aiohomekit.controller.coap.connection", "aiohomekit.controller.coap.pairing",
+                              "aiohomekit.controller.ble.pairing")
 DEFINED = [m.value for m in real_sc.HapStatusCode if m.value not in (0, -1)]
 
 
@@ -28,12 +32,13 @@ def copies(mutate=None):
     m.ip = load(IP, deps={SC: m.sc}, src_transform=mutate.get(IP))
     m.cconn = load(CCONN, src_transform=mutate.get(CCONN))
     m.cpair = load(CPAIR, deps={SC: m.sc}, src_transform=mutate.get(CPAIR))
+    m.blep = load(BLEP, deps={SC: m.sc}, src_transform=mutate.get(BLEP))
     return m
 
 
 def reals():
     m = Mods()
-    m.sc, m.ip, m.cconn, m.cpair = real_sc, real_ip, real_cconn, real_cpair
+    m.sc, m.ip, m.cconn, m.cpair, m.blep = real_sc, real_ip, real_cconn, real_cpair, real_blep
     return m
 
 
@@ -329,6 +334,115 @@ def coap_units(M):
     return read_exit, put
 
 
+# ------------------------------------------------------------------ BLE
+BLE_PERMS = {"rw": ["pr", "pw"], "w": ["pw"], "r": ["pr"], "rwt": ["pr", "pw", "tw"], "rw-ev": ["pr", "pw", "ev"]}
+
+
+class BleChar:
+    def __init__(self, iid, perms):
+        self.iid, self.perms, self.format = iid, perms, "uint8"
+
+
+def ble_put(M):
+    """BlePairing.put_characteristics (full decorator stack): per-write outcome success / each PDU error status; permissions by selector"""
+    def h(ex):
+        n = 3
+        kinds = [ex.choice("perm%d" % i, list(BLE_PERMS)) for i in range(n)]
+        outcomes = [ex.choice("outcome%d" % i, ["ok", 2, 6]) for i in range(n)]
+        chars = {10 + i: BleChar(10 + i, BLE_PERMS[kinds[i]]) for i in range(n)}
+        writes = [(1, 10 + i, 5 + i) for i in range(n)]
+        p = object.__new__(M.blep.BlePairing)
+        p._shutdown = False
+        p._restore_pending = False
+        p._operation_lock = asyncio.Lock()
+        p._ble_request_lock = asyncio.Lock()
+        p.description = None
+        p.device = None
+        p.ble_advertisement = None
+        p.pairing_data = {"AccessoryAddress": "aa", "iOSPairingId": "me", "AccessoryPairingID": "xx"}
+        p.id = "x"
+        p.client = None
+
+        class Chars:
+            def iid(self, iid):
+                return chars[iid]
+
+        class Acc:
+            characteristics = Chars()
+
+        class Accs:
+            def aid(self, a):
+                return Acc()
+
+            def __bool__(self):
+                return True
+
+        class St:
+            accessories = Accs()
+
+        p._accessories_state = St()
+        calls = []
+        p.listeners = {calls.append}
+        sent = []
+
+        async def nothing(*a, **k):
+            return None
+
+        p._populate_accessories_and_characteristics = nothing
+        PDUStatusError = M.blep.PDUStatusError if hasattr(M.blep, "PDUStatusError") else __import__("aiohomekit.controller.ble.client", fromlist=["PDUStatusError"]).PDUStatusError
+
+        async def request(opcode, char, data=None, iid=None):
+            i = char.iid - 10
+            sent.append((char.iid, opcode.name))
+            if outcomes[i] != "ok":
+                raise PDUStatusError(outcomes[i], "PDU status was not success")
+            return b""
+
+        p._async_request_under_lock = request
+        try:
+            res = drive(p.put_characteristics(list(writes)))
+            failed_at = None
+        except PDUStatusError:
+            res = None
+            failed_at = len({iid for iid, _ in sent}) - 1  # index among contacted characteristics
+        notified = {}
+        for c in calls:
+            notified.update(c)
+        # reference: walk the batch in order
+        stop = False
+        for i, (aid, iid, value) in enumerate(writes):
+            k = (aid, iid)
+            perms = BLE_PERMS[kinds[i]]
+            writable = "pw" in perms or "tw" in perms
+            if stop:
+                ex.require(k not in notified, "ble-write: nothing is announced for characteristics after the failing write")
+                continue
+            if not writable:
+                ex.tag("not-writable")
+                ex.require(k not in notified, "ble-write: a characteristic that was not written is not announced")
+                if res is not None:
+                    r = res.get(k)
+                    ex.require(r is not None and r.get("status") not in (0, None) and getattr(r.get("status"), "value", r.get("status")) != 0,
+                               "ble-write: a characteristic that cannot be written is reported with a non-zero status")
+                continue
+            if outcomes[i] != "ok":
+                ex.tag("rejected")
+                stop = True
+                ex.require(res is None, "ble-write: a rejected write makes the call fail (or is reported with a non-zero status)")
+                ex.require(k not in notified, "ble-write: listeners are not told a rejected value was written")
+                continue
+            # accepted by the accessory
+            if res is not None:
+                ex.require(k not in res or res[k].get("status") in (0, None), "ble-write: an accepted characteristic is not reported with a non-zero status")
+            if "pr" in perms:
+                ex.tag("accepted-readable")
+                ex.require(notified.get(k) == {"value": value}, "ble-write: listeners are told the new value of every accepted readable characteristic")
+            else:
+                ex.require(k not in notified, "ble-write: no notification for a characteristic that is not readable")
+        return ex.observe([kinds, [str(o) for o in outcomes], res is None, sorted(str(k) for k in notified)])
+    return h
+
+
 def build(tier, mutate=None):
     C = copies(mutate)
     R = reals()
@@ -346,6 +460,9 @@ def build(tier, mutate=None):
     rr, rp = coap_units(R)
     units.append(Unit("coap-read/_read_characteristics_exit", cr, rr, bounds={"items": 3, "result": "empty body or each PDUStatus error"}, regions=["coap-error"]))
     units.append(Unit("coap-write/put_characteristics", cp, rp, bounds={"items": 3, "result": "ok or each PDUStatus error"}, regions=["rejected", "accepted-readable"]))
+    units.append(Unit("ble-write/put_characteristics", ble_put(C), ble_put(R), split=True,
+                      bounds={"writes": 3, "permissions": list(BLE_PERMS), "outcome per write": "ok or PDU status 2 / 6"},
+                      regions=["rejected", "accepted-readable", "not-writable"]))
     return units
 
 
@@ -361,7 +478,7 @@ ASSUMPTIONS = [
     "a 207 entry that has ids but no status key is outside (the quantifier lists missing, duplicated, non-dict and id-less entries only)",
     "pairing objects built with object.__new__; connection.put_json / write_characteristics and _ensure_connected are stubs; accessories are stubs exposing perms; characteristic ids concrete",
     "the text 'Unknown error code: n' for undefined codes is only compared on the real library (formatting a symbolic int is not modelled)",
-    "BLE put_characteristics (per-write PDUStatusError) is not covered by this check",
+    "BLE put_characteristics runs with its full decorator stack on an object.__new__ pairing; _async_request_under_lock is a scripted stub raising PDUStatusError",
 ]
 
 
